@@ -9,3 +9,4 @@ import MtailVerif.Props.C21
 #print axioms MtailVerif.C21.sum_buckets_eq_count
 #print axioms MtailVerif.C21.exported_bounds_eq_declared_plus_inf_partial
 #print axioms MtailVerif.C21.first_bound_nonpositive_dropped
+#print axioms MtailVerif.C21.text_observation_shape
